@@ -508,7 +508,8 @@ Definition do_poll (s : st) (f w : N) : st * res :=
           end
       | FSendB rest sent total =>
           if sent =? total then
-            (put_f f (mkF (fh fr) (FSendB rest sent total) None) (unreg_send f s), RReady (RBatchOk total))
+            (put_f f (mkF (fh fr) (FSendB rest sent total) None) (unreg_send f (note_lost f fr s)),
+             RReady (RBatchOk total))
           else if tx_dead s r then
             (put_f f (mkF (fh fr) (FSendB [] sent total) None)
                    (giveback rest (unreg_send f (note_lost f fr s))),
